@@ -84,6 +84,11 @@ pub fn heap_retain(storage: &mut HeapStorage, idx: HeapIdx) {
         obj.refcount += 1;
         log::trace!("heap_retain: {:?} refcount -> {}", idx, obj.refcount);
     } else {
+        #[cfg(feature = "verif-hooks")]
+        crate::verif::misc(crate::verif::MiscEvent::DeadHandle {
+            op: "heap_retain",
+            raw: unsafe { std::mem::transmute_copy::<HeapIdx, u64>(&idx) },
+        });
         log::warn!("heap_retain: invalid HeapIdx {idx:?}");
     }
 }
@@ -110,6 +115,11 @@ pub fn heap_release(storage: &mut HeapStorage, idx: HeapIdx) {
             storage.remove(idx);
         }
     } else {
+        #[cfg(feature = "verif-hooks")]
+        crate::verif::misc(crate::verif::MiscEvent::DeadHandle {
+            op: "heap_release",
+            raw: unsafe { std::mem::transmute_copy::<HeapIdx, u64>(&idx) },
+        });
         log::warn!("heap_release: invalid HeapIdx {idx:?}");
     }
 }
